@@ -294,7 +294,7 @@ MUXBUF = "ctx_LOG_MUX._buf"
 MUX_SAME = "enc_eq(" + MUXBUF + ", old(" + MUXBUF + "))"
 NM = "os_basename(filename)"
 R.contract(
-    LOG + "append_jsonl", "C16", callee=False,
+    LOG + "append_jsonl", ["C16", "C10"], callee=False,
     types={"filename": "str", "record": REC, "feature_guard": "Optional[bool]"},
     ghost=dict(FS_GHOST, ctx_LOG_MUX=("OptLogMux", "any"), rec0=(REC, "any")),
     setup=["rec0 = record"],
@@ -322,27 +322,27 @@ R.contract(
 
 # ------------------------------------------------------------------ clematis/engine/util/logmux.py
 MUX = "clematis/engine/util/logmux.py:"
-R.contract(MUX + "LogMux.write", "C16", callee=False,
+R.contract(MUX + "LogMux.write", ["C16", "C10"], callee=False,
            types={"self": "LogMux", "stream": "str", "obj": REC},
            ensures=[("appended-in-call-order",
                      "len(self._buf) == old(len(self._buf)) + 1 and "
                      "forall(i, 0 <= i < old(len(self._buf)), enc_eq(self._buf[i], old(self._buf)[i])) and "
                      "self._buf[len(self._buf) - 1][0] == stream and enc_eq(self._buf[len(self._buf) - 1][1], obj)")],
            raises="none")
-R.contract(MUX + "LogMux.dump", "C16", callee=False,
+R.contract(MUX + "LogMux.dump", ["C16", "C10"], callee=False,
            types={"self": "LogMux"}, returns=PAIRS,
            ensures=[("copy-in-order", "enc_eq(result, self._buf) and not same_obj(result, self._buf)"),
                     ("buffer-kept", "enc_eq(self._buf, old(self._buf))")],
            raises="none")
-R.contract(MUX + "LogMux.clear", "C16", callee=False,
+R.contract(MUX + "LogMux.clear", ["C16", "C10"], callee=False,
            types={"self": "LogMux"}, ensures=[("emptied", "len(self._buf) == 0")], raises="none")
 
 # flush / write_or_buffer: the writer they call is append_jsonl (verified above); here its calls are recorded
-AJ = R.contract(LOG + "append_jsonl", "C16", verify=False, callee=False, name="append_jsonl(assumed)",
+AJ = R.contract(LOG + "append_jsonl", ["C16", "C10"], verify=False, callee=False, name="append_jsonl(assumed)",
                 types={"filename": "str", "record": REC, "feature_guard": "Optional[bool]"},
                 raises=["OSError"],
                 effects=["aj_calls.append((filename, record))"])
-R.contract(MUX + "flush", "C16", callee=False,
+R.contract(MUX + "flush", ["C16", "C10"], callee=False,
            types={"pairs": PAIRS},
            ghost={"aj_calls": (PAIRS, "empty")},
            funcs={LOG + "append_jsonl": AJ},
@@ -354,7 +354,7 @@ R.contract(MUX + "flush", "C16", callee=False,
                          "len(aj_calls) < len(pairs) and forall(j, 0 <= j < len(aj_calls), enc_eq(aj_calls[j], pairs[j]))")],
            loops={0: {"inv": ["len(aj_calls) == _i", "forall(j, 0 <= j < _i, enc_eq(aj_calls[j], pairs[j]))",
                               "enc_eq(pairs, pre_loop(pairs))"]}})
-R.contract(MUX + "write_or_buffer", "C16", callee=False,
+R.contract(MUX + "write_or_buffer", ["C16", "C10"], callee=False,
            types={"stream": "str", "obj": REC},
            ghost={"aj_calls": (PAIRS, "empty"), "ctx_LOG_MUX": ("OptLogMux", "any")},
            funcs={LOG + "append_jsonl": AJ},
